@@ -375,7 +375,9 @@ pub fn build_interp(
         let Some(ts) = raw.tuples.get(pi) else { continue };
         for (ti, tuple) in ts.iter().enumerate() {
             let vals: Vec<Val> = (0..*arity)
-                .map(|k| pool[idx(tuple[k % tuple.len()], pool.len())].clone())
+                // positions beyond the raw tuple re-use its entries with an offset, so that wide
+                // tuples are not periodic (a permutation of arguments must be visible)
+                .map(|k| pool[idx(tuple[k % tuple.len()].wrapping_add(((k / tuple.len()) as u16).wrapping_mul(25717)), pool.len())].clone())
                 .collect();
             if raw.in_h.get(pi).and_then(|v| v.get(ti)).copied().unwrap_or(false) {
                 h.insert(name, vals.clone());
